@@ -40,8 +40,8 @@ def balance_kernel(rep, cross, ty, meth, expect, label):
     def key(s):
         # merge states that are at the same control location with the same event counters and loop counters
         ev = tuple((x[0] if x[0] != 'call' else None) for x in s.events if x[0] in ('push', 'pop', 'abs_push', 'abs_pop'))
-        loc = tuple((f.fn.name, f.block, tuple(sorted(f.visits.items()))) for f in s.frames)
-        return (loc, ev)
+        loc = tuple((f.fn.name, f.block, f.ret_block, id(f.on_return), tuple(sorted(f.visits.items()))) for f in s.frames)
+        return (loc, ev, ex.control_digest(s))
     ex.subsume_key = key
 
     def ev(kind):
@@ -109,7 +109,7 @@ def run(rep):
     rep.assumptions = [
         'assume-guarantee: every callee other than push_env_guard/pop_env_guard leaves the env-guard stack as it found it (checked for the callees that are kernels here, assumed for the rest)',
         'callees return arbitrary values and may rewrite anything behind &mut arguments',
-        'states reaching the same control location with the same loop counters and the same push/pop history are merged (data differences after the merge are ignored: every callee result is arbitrary anyway)',
+        'states reaching the same control location with the same loop counters and the same push/pop history and the same decided Result/ControlFlow cases (what steers early returns) are merged; symbolic data differences after the merge are ignored (every callee result is arbitrary anyway)',
     ]
     rep.outside = ['cross-opcode pairing inside the VM beyond the four trampoline functions', 'root_guard misuse', 'the collector itself (C13)',
                    'push_scope/pop_scope pairing across yields (see known finding)']
